@@ -73,6 +73,7 @@ func c05Generated(t *fw.T) {
 	o := gen.JSOpts{CtxNames: r.Intn(2) == 0}
 	if r.Intn(2) == 0 {
 		o.NoModuleItems = true
+		o.YieldName = o.CtxNames
 	}
 	prog := gen.JSProgram(r, o)
 	st := gen.JSStyle{Parens: r.Intn(3), Semi: r.Intn(3), WS: r.Intn(3), Seed: r.Int63(), Bang: []int{0, 0, 10, 40}[r.Intn(4)]}
